@@ -33,11 +33,18 @@ from .values import (
     SeqV,
     SliceV,
     Sym,
+    Unknown,
     empty_seq,
     kind_of,
     unit,
     wrap,
     z,
+)
+
+
+_MUTATORS = frozenset(
+    "add append clear discard extend insert pop popitem remove reverse setdefault sort update "
+    "appendleft popleft extendleft rotate __setitem__ __delitem__ move_to_end".split()
 )
 
 
@@ -575,6 +582,8 @@ class Run:
         raise OutOfDialect(f"compare {type(op).__name__} on {ka},{kb}", n)
 
     def _is(self, a: Any, b: Any, n: ast.AST) -> Any:
+        if isinstance(a, Unknown) or isinstance(b, Unknown):
+            return self.fresh("unk_is", "bool")
         if isinstance(a, Sym) and a.k == "optstr" and b is None:
             return wrap(OptStr.is_none_s(a.t), "bool")
         if isinstance(a, Sym) and a.k == "optint" and b is None:
@@ -592,6 +601,8 @@ class Run:
         raise OutOfDialect("`is` on non-reference values", n)
 
     def contains(self, container: Any, item: Any, n: ast.AST) -> Any:
+        if isinstance(container, Unknown):
+            return self.fresh("unk_in", "bool")
         h0 = getattr(self.spec, "contains", None)
         if h0 is not None:
             r0 = h0(self, container, item, n)
@@ -623,6 +634,8 @@ class Run:
 
     def truth(self, v: Any) -> Any:  # noqa: PLR0911
         """Python truthiness as python bool or z3 Bool."""
+        if isinstance(v, Unknown):
+            return self.fresh("unk_truth", "bool").t
         if isinstance(v, bool):
             return v
         if v is None:
@@ -669,6 +682,20 @@ class Run:
     def e_Attribute(self, n: ast.Attribute) -> Any:
         return self.getattr(self.eval(n.value), n.attr, n)
 
+    def _declared_attr(self, cls: str, attr: str) -> bool:
+        """attr is assigned as `self.attr = ...` in some method of the class or a base, or named in __slots__."""
+        for ci in self.program.mro(cls):
+            node = getattr(ci, "node", None)
+            if node is None:
+                continue
+            for sub in ast.walk(node):
+                if isinstance(sub, ast.Attribute) and sub.attr == attr and isinstance(sub.ctx, ast.Store):
+                    if isinstance(sub.value, ast.Name) and sub.value.id == "self":
+                        return True
+                if isinstance(sub, ast.Constant) and sub.value == attr:
+                    return True
+        return False
+
     def getattr(self, base: Any, attr: str, n: ast.AST | None) -> Any:  # noqa: C901, PLR0911, PLR0912
         h = getattr(self.spec, "getattr", None)
         if h is not None:
@@ -696,6 +723,9 @@ class Run:
                         return self.eval(ci.consts[attr])
                     finally:
                         self.frames.pop()
+            if not o.get("$fresh") and self._declared_attr(o["$cls"], attr):
+                # a real attribute of a pre-existing object that no contract sets up: arbitrary value
+                return Unknown(base.oid, attr)
             raise OutOfDialect(f"attribute {attr} of {o['$cls']} not modelled", n)
         if isinstance(base, (Sym, str, SeqV, Child, tuple)):
             return BoundMethod(base, attr)
@@ -716,6 +746,8 @@ class Run:
                     if attr in c.methods:
                         return FuncV(c.methods[attr].qualname)
             raise OutOfDialect(f"class attribute {base.qual}.{attr}", n)
+        if isinstance(base, Unknown):
+            return Unknown(base.owner, f"{base.path}.{attr}")
         if isinstance(base, Opaque):
             return Opaque(f"{base.what}.{attr}")
         raise OutOfDialect(f"attribute {attr} on {base!r}", n)
@@ -801,6 +833,8 @@ class Run:
         return self.new_list(ek, r)
 
     def getitem(self, base: Any, idx: Any, n: ast.AST) -> Any:
+        if isinstance(base, Unknown):
+            return Unknown(base.owner, base.path + "[]")
         if isinstance(base, ClassV):
             return base  # Generic[...] subscription: Stack[str] is Stack
         if isinstance(base, tuple) and isinstance(idx, int) and not (base and isinstance(base[0], str) and base[0].startswith("$")):
@@ -896,6 +930,11 @@ class Run:
             saved = dict(outer)
             res = self.call_function(fi, None, args, kwargs, n, closure=outer)
             return res
+        if isinstance(f, Unknown):
+            # a call through an unmodelled attribute of a shared object: a mutator name is a write to the owner
+            if f.path.rsplit(".", 1)[-1] in _MUTATORS:
+                self.note_write(f.owner, f.path)
+            return Unknown(f.owner, f.path + "()")
         if isinstance(f, BuiltinV):
             return self.call_builtin(f.name, args, kwargs, n)
         if isinstance(f, BoundMethod):
@@ -1406,9 +1445,15 @@ class Run:
         if isinstance(base, Ref) and not self.is_list(base):
             self.setf(base, attr, v)
             return
+        if isinstance(base, Unknown):
+            self.note_write(base.owner, f"{base.path}.{attr}")
+            return
         raise OutOfDialect(f"attribute store on {base!r}", n)
 
     def setitem(self, base: Any, idx: Any, v: Any, n: ast.AST) -> None:
+        if isinstance(base, Unknown):
+            self.note_write(base.owner, base.path + "[]")
+            return
         if self.is_list(base):
             t, ek = self.as_seq(base, n)
             ln = z3.Length(t)
